@@ -1,0 +1,114 @@
+//go:build verif
+
+package stdmath
+
+// Contracts for govc (see /verif/DESIGN.md, C19 / C08). Comment-only file.
+
+// Heap invariants of the expression tree: operator functions, sub-expressions and evaluation
+// contexts stored in fields are never nil (obligation at every store, assumption at every load).
+//@ nonnil rare/pkg/expressions/stdmath.OpFunc
+//@ nonnil rare/pkg/expressions/stdmath.OpUnary
+//@ nonnil rare/pkg/expressions/stdmath.Expr
+//@ nonnil rare/pkg/expressions/stdmath.Context
+
+// The operator tables are written only by package initialisation. These facts about the
+// composite literals are checked as table obligations over the typed AST (props/C19.json).
+//@ globalinv !in_dom(ops, "") && in_dom(ops, "*")
+//@ globalinv forall k: str :: in_dom(ops, k) ==> map_get(ops, k) != nil && len(k) >= 1 && len(k) <= 2
+//@ globalinv forall k: str :: in_dom(uniOps, k) ==> map_get(uniOps, k) != nil
+
+// token stream invariant: every unary-modifier token names an entry of uniOps
+//@ pred wf_tok(toks) := forall k in [0, len(toks)) :: toks[k].t == typeMod ==> in_dom(uniOps, toks[k].val)
+
+// Evaluating an expression only reads the tree; the only state it may change is the context
+// object handed in (error counters, probe hit counters).
+//@ iface rare/pkg/expressions/stdmath.Expr.Eval
+//@   params (this, ctx)
+//@   requires ctx != nil
+//@   modifies dyn(ctx).*
+//@ iface rare/pkg/expressions/stdmath.Context.GetMatch
+//@   params (this, idx)
+//@   modifies dyn(this).*
+//@ iface rare/pkg/expressions/stdmath.Context.GetKey
+//@   params (this, name)
+//@   modifies dyn(this).*
+//@ functype rare/pkg/expressions/stdmath.OpFunc
+//@   params (this, left, right)
+//@   pure
+//@ functype rare/pkg/expressions/stdmath.OpUnary
+//@   params (this, v)
+//@   pure
+
+//@ func (*tokenScanner).pop
+//@   requires len(s.next) >= 1
+//@   modifies s.next
+//@   ensures len(s.next) == old(len(s.next)) - 1 && ref(s.next) == old(ref(s.next)) && off(s.next) == old(off(s.next)) + 1
+//@   ensures result.t == old(s.next[0].t) && result.val == old(s.next[0].val)
+//@ func (*tokenScanner).peek
+//@   requires len(s.next) >= 1
+//@   pure
+
+//@ func (*tokenScanner).getNextExpr
+//@   modifies s.next
+//@   requires len(s.next) >= 1 && wf_tok(s.next)
+//@   ensures wf_tok(s.next)
+//@   ensures result1 == nil ==> result0 != nil
+//@ func (*tokenScanner).getNextOp
+//@   modifies s.next
+//@   requires len(s.next) >= 1 && wf_tok(s.next)
+//@   ensures wf_tok(s.next)
+//@   ensures result2 == nil ==> result0 != nil
+//@   ensures !pop ==> len(s.next) == old(len(s.next)) && ref(s.next) == old(ref(s.next)) && off(s.next) == old(off(s.next))
+//@ func (*tokenScanner).compileTokens
+//@   modifies s.next
+//@   requires wf_tok(s.next)
+//@   ensures wf_tok(s.next)
+//@   loop 1 invariant wf_tok(s.next) && ret != nil
+//@   ensures err == nil ==> ret != nil
+//@ func compileToken
+//@   pure
+//@   ensures result1 == nil ==> result0 != nil
+//@ func Compile
+//@   pure
+//@   ensures result1 == nil ==> result0 != nil
+//@ func simplify
+//@   pure
+//@   requires expr != nil
+//@   ensures result != nil
+
+// has_op_prefix(s): s starts with a (one or two byte) binary operator
+//@ pred has_op_prefix(s) := (len(s) >= 2 && in_dom(ops, s[0:2])) || (len(s) >= 1 && in_dom(ops, s[0:1]))
+
+// opCodeOrder walks the (finite) precedence table; its totality on the operators that can reach
+// it is established by the exhaustive finite check in the replay driver, not by this proof.
+//@ func opCodeOrder
+//@   pure
+//@   trusted
+//@   ensures -1 <= result && result <= 1
+
+//@ func prefixInOps
+//@   pure
+//@   ensures result != nil ==> len(*result) >= 1 && len(*result) <= len(s) && len(*result) <= 2
+//@   ensures (result != nil) == has_op_prefix(s)
+//@   loop 1 invariant 0 <= i + 1 && i <= len(code) && len(code) <= len(s) && len(code) <= 2 && (len(s) >= 2 ==> len(code) == 2) && (len(s) < 2 ==> len(code) == len(s))
+//@   loop 1 invariant (i < 2 && len(code) >= 2 ==> !in_dom(ops, s[0:2])) && (i < 1 && len(code) >= 1 ==> !in_dom(ops, s[0:1]))
+
+//@ func tokenizeExpr
+//@   pure
+//@   ensures result1 == nil ==> wf_tok(result0)
+//@   loop 1 invariant 0 <= i && i <= len(s) && wf_tok(ret) && fresh(ret)
+
+//@ func (*exprVal).Eval
+//@   pure
+//@ func (*exprNamedVar).Eval
+//@   requires ctx != nil
+//@   modifies dyn(ctx).*
+//@ func (*exprIndexVar).Eval
+//@   requires ctx != nil
+//@   modifies dyn(ctx).*
+//@ func (*exprUnary).Eval
+//@   requires ctx != nil
+//@   modifies dyn(ctx).*
+//@ func (*exprBinary).Eval
+//@   requires ctx != nil
+//@   modifies dyn(ctx).*
